@@ -179,6 +179,18 @@ def exec_tx(d, tx, rt=None):
         finally:
             bw.close()
         return
+    if front == "ixmethod":
+        # the convenience methods of FileIndex open (and commit) their own writers
+        op = tx["ops"][0] if tx["ops"] else None
+        if op is None:
+            ix.optimize(**wk)
+        elif op[0] == "add_field":
+            ix.add_field(op[1], extra_field(op[2]))
+        elif op[0] == "remove_field":
+            ix.remove_field(op[1])
+        else:
+            raise ValueError(op)
+        return
     if front == "mp":
         from whoosh.multiproc import MpWriter
         w = MpWriter(ix, procs=tx.get("procs", 2), batchsize=tx.get("batch", 1), multisegment=bool(tx.get("multiseg")),
@@ -441,13 +453,35 @@ def gen_history(rng, idx, tier):
             tx = g.tx(model, fs, front=front)
         txs.append(tx)
         model, fs = model_apply(model, fs, tx)
+    if idx % 3 == 1:
+        # one more transaction through a convenience method of the index object (own generator: the transactions above stay
+        # what they were before these existed)
+        xr = random.Random("c02-ixmethod:%d" % idx)
+        which = ["optimize", "add_field", "remove_field"][(idx // 3) % 3]
+        removable = sorted(f for f in fs if f.startswith("x") or f == "k")
+        if which == "remove_field" and not removable:
+            which = "add_field"
+        if which == "optimize":
+            tx = {"ops": [], "commit": "optimize", "finish": "commit", "compound": xr.random() < 0.5, "front": "ixmethod"}
+        elif which == "add_field":
+            tx = {"ops": [["add_field", "xm%d" % idx, xr.choice(["kw", "text"])]], "commit": "default", "finish": "commit",
+                  "compound": True, "front": "ixmethod"}
+        else:
+            tx = {"ops": [["remove_field", xr.choice(removable)]], "commit": "default", "finish": "commit",
+                  "compound": True, "front": "ixmethod"}
+        txs.append(tx)
+        model, fs = model_apply(model, fs, tx)
     create_monitored = (idx % 3 == 0)
     # generation padding: empty un-monitored commits right after create_in, so that the monitored transactions start just
     # below a decimal digit boundary of the generation number (..9 -> 10, ..99 -> 100: file names are compared/ordered)
     # odd histories: the first committing monitored transaction makes generation 10; every 8th: generation 100
     target = 9 if idx % 2 == 1 else (99 if idx % 8 == 4 else None)
     genpad = max(0, target - len(prelude)) if target is not None else 0
-    return {"theme": theme, "create_monitored": create_monitored, "prelude": prelude, "txs": txs, "genpad": genpad}
+    # a second index under another name in the same directory (created before everything else, never written again): no
+    # crash state of MAIN's transactions and no orphan cleaning of MAIN's later commits may disturb it
+    neighbour = [None, None, "other", None, None, None, "MAIN2", None][idx % 8]
+    return {"theme": theme, "create_monitored": create_monitored, "prelude": prelude, "txs": txs, "genpad": genpad,
+            "neighbour": neighbour}
 
 
 # ----------------------------------------------------------------------
@@ -479,6 +513,49 @@ def observe_index(ix):
                 "dump": D.dump(r), "probes": probes(s)}
 
 
+NEIGHBOURS = ("other", "MAIN2")
+
+
+def build_neighbour(d, name, loose):
+    """storage.create_index(..., indexname=<non-default>) in the directory that will hold MAIN; two commits."""
+    from whoosh.filedb.filestore import FileStorage
+    st = FileStorage(d)
+    ix = st.create_index(make_schema(), indexname=name)
+    for p in range(2):
+        w = ix.writer(compound=not loose)
+        for i in range(2):
+            w.add_document(id="nb%d.%d" % (p, i), t="alfa hotel" if i else "bravo golf", n=10 * p + i, k="red")
+        w.commit(merge=False)
+
+
+def neighbour_files(d):
+    out = {}
+    for f in sorted(os.listdir(d)):
+        for name in NEIGHBOURS:
+            if f.startswith(name + "_") or f.startswith("_" + name + "_"):
+                if not f.endswith("_WRITELOCK"):
+                    with open(os.path.join(d, f), "rb") as fh:
+                        out[f] = zlib.crc32(fh.read())
+    return out
+
+
+def observe_neighbours(d):
+    """{} when the directory holds no other index; else per index name its files (name -> crc) and its logical dump."""
+    from whoosh import index, query
+    from vf import dump as D
+    files = neighbour_files(d)
+    if not files:
+        return {}
+    out = {"files": files}
+    for name in NEIGHBOURS:
+        if any(f.startswith("_" + name + "_") for f in files):
+            ix = index.open_dir(d, indexname=name)
+            with ix.searcher() as s:
+                out[name] = {"gen": ix.latest_generation(), "dump": D.dump(s.reader()),
+                             "alfa": sorted(h["id"] for h in s.search(query.Term("t", "alfa"), limit=None))}
+    return out
+
+
 class EvalFailure(Exception):
     def __init__(self, phase, exc):
         Exception.__init__(self, "%s: %r" % (phase, exc))
@@ -505,6 +582,8 @@ def evaluate(d, seedtag):
         else:
             phase = "dump+probes"
             obs["state"] = observe_index(ix)
+        phase = "neighbour-index"
+        obs["nb_before"] = observe_neighbours(d)
         phase = "fresh-writer"
         w = ix.writer(timeout=0)
         fresh = {"id": "zz", "t": "alfa zulu"}
@@ -522,6 +601,8 @@ def evaluate(d, seedtag):
         phase = "reopen-after-write"
         ix2 = index.open_dir(d)
         obs["after"] = observe_index(ix2)
+        phase = "neighbour-index(after-write)"
+        obs["nb_after"] = observe_neighbours(d)
         phase = "orphan-scan"
         live = set(seg.segment_id() for seg in ix2._segments())
     except Exception as e:  # noqa
@@ -539,6 +620,8 @@ def evaluate(d, seedtag):
             left.append("oldtoc")
         elif f == "MAIN.tmp":
             left.append("tmpdir")
+        elif any(f.startswith(nb + "_") or f.startswith("_" + nb + "_") for nb in NEIGHBOURS):
+            pass        # files of the other index in this directory (observed through nb_before / nb_after)
         elif not (m or SEGFILE.match(f) or f == "MAIN_WRITELOCK"):
             left.append("other:" + f)
     obs["leftover"] = sorted(set(left))
@@ -546,7 +629,8 @@ def evaluate(d, seedtag):
 
 
 def comparable(obs):
-    return {"state": obs["state"], "after": obs["after"]}
+    return {"state": obs["state"], "after": obs["after"], "nb_before": obs.get("nb_before") or {},
+            "nb_after": obs.get("nb_after") or {}}
 
 
 def stored_view(state):
@@ -923,6 +1007,11 @@ def run_history(ctx, idx, hist=None):
             txs.append(t)
             monitored.append(True)
         kill_budget = ctx.pick(1, 4)
+        if hist.get("neighbour"):
+            random.seed("c02-neighbour:%d:%d" % (ctx.seed, idx))
+            build_neighbour(d, hist["neighbour"], loose=(idx % 16 >= 8))
+            ctx.count("neighbour.histories")
+            ctx.count("neighbour.histories." + hist["neighbour"])
         for j, tx in enumerate(txs):
             if ctx.expired():
                 ctx.truncated = True
@@ -995,6 +1084,14 @@ def run_monitored_tx(ctx, tap, root, d, idx, j, tx, rng, wb, model, new_model, f
     info["segs_before"] = segs_before
     # model cross-check of S_old
     crosscheck(ctx, "S_old", ref_old, model, fs, wb)
+    if ref_old.get("nb_before"):
+        ctx.count("neighbour.tx_monitored")
+        if len(ref_old["nb_before"]) < 2 or ref_old["nb_before"] != ref_old["nb_after"]:
+            ctx.fail("clean-execution", "neighbour-index-unobservable-or-changed-by-a-clean-commit", wb,
+                     "; ".join(first_difference(ref_old["nb_before"], ref_old["nb_after"])))
+            return False, info
+    if tx.get("front") == "ixmethod":
+        ctx.count("tx.ixmethod." + (tx["ops"][0][0] if tx["ops"] else "optimize"))
     run = TxRun(ctx, tap, root, d, idx, j, tx, rng, wb)
     run.states.append(comparable(ref_old))
     is_mp = tx.get("front") == "mp"
@@ -1139,6 +1236,9 @@ def run_monitored_tx(ctx, tap, root, d, idx, j, tx, rng, wb, model, new_model, f
             c = comparable(obs)
             ref = states[min(lo + 1, len(states) - 1)] if state_gen(c) != state_gen(states[lo]) else states[lo]
             part = "state" if c["state"] != ref["state"] else "after-fresh-commit"
+            if c["state"] == ref["state"] and c["after"] == ref["after"]:
+                part = "neighbour-index-disturbed" if c["nb_before"] != ref["nb_before"] else \
+                    "neighbour-index-disturbed-by-next-commit"
             w["expected"] = "observation identical to the clean state before or after the commit in progress"
             w["observed_vs_nearest_clean_state"] = first_difference(ref, c)
             w["observed_keys"] = keys_of(c["state"])
